@@ -24,6 +24,7 @@ from .project import META_RE
 from .sched import Actor, Clock, Scheduler
 
 HINT = "metadata.version-hint.text"
+_RealDT = _real_datetime.datetime
 
 _env: Optional["Env"] = None
 _patches: List[Tuple[Any, str, Any]] = []
@@ -163,7 +164,7 @@ def _frames(skip: int, depth: int = 14) -> List[Tuple[str, str]]:
 def resolve_purpose(frames: List[Tuple[str, str]]) -> str:
     """Why the library is resolving the pointer, from the call stack (innermost first)."""
     names = [n for _f, n in frames]
-    via_refresh = "refresh" in names[:3]
+    via_refresh = any(n in ("refresh", "_refresh_with_info") for n in names[:3])
     for fn, n in frames:
         if fn == "metadata_manager.py" and n == "commit":
             return "validate" if via_refresh else "version"
@@ -225,10 +226,14 @@ class FakeTime:
 
 
 def make_fake_datetime(env: "Env") -> Any:
-    class FakeDateTime(_real_datetime.datetime):
+    class _Meta(type):
+        def __instancecheck__(cls, inst: Any) -> bool:        # real datetimes are instances too
+            return isinstance(inst, _RealDT)
+
+    class FakeDateTime(_RealDT, metaclass=_Meta):
         @classmethod
         def now(cls, tz: Any = None) -> Any:  # type: ignore[override]
-            frames = _frames(2, 6)
+            frames = _frames(2, 1)            # the function that reads the clock directly
             why = "other"
             for fn, n in frames:
                 if n == "create_snapshot":
@@ -245,7 +250,7 @@ def make_fake_datetime(env: "Env") -> Any:
             ms = env.clock.read_ms()
             if why in ("ts", "upd", "upd0") and env.sched.me() is not None:
                 env.sched.emit({"k": "Now", "why": why, "val": env.clock.rel(ms)})
-            return _real_datetime.datetime.fromtimestamp((ms * 1000 + 500) / 1e6, tz)
+            return _RealDT.fromtimestamp((ms * 1000 + 500) / 1e6, tz)
 
     return FakeDateTime
 
@@ -267,6 +272,10 @@ class Env:
         self.ndata: Dict[str, int] = {}             # actor -> data files written in this operation
         self.allow_spin = False                     # let lock pollers spin (timeout experiments)
         self.data_age_ms = 0                        # > 0: data files are back-dated by this much when written
+        self.s3_lock_view: Optional[Callable[[str], bool]] = None   # S3: "is the lock held by someone else and not lapsed?"
+        self.lock_deletes: List[Tuple[str, Optional[str]]] = []   # (actor, body of the lock object it deleted)
+        self.heartbeats: List[Any] = []             # S3 lock providers whose lease would be renewed by a heartbeat thread
+        self.etag_names: Dict[Any, Dict[str, int]] = {}
         self.gc_started = False                     # a collection run has begun (no back-dating from here on)
         self.table_root: Optional[str] = None
         self.fault_exc: Callable[[str], BaseException] = lambda what: OSError(f"injected fault: {what}")
@@ -338,8 +347,16 @@ class Env:
         a = self.sched.me()
         if a is None:
             return
-        names = _caller_names(3, 6)
-        why = "backoff" if "commit" in names and "acquire" not in names else ("lockpoll" if "acquire" in names else "other")
+        why = "other"
+        for fn, n in _frames(2, 6):
+            if fn in ("instrument.py",) or n == "<lambda>":
+                continue
+            # the library function that sleeps
+            if fn == "transaction.py" and n == "commit":
+                why = "backoff"
+            elif n == "acquire":
+                why = "lockpoll"
+            break
         blocked = None
         if why == "lockpoll" and not self.allow_spin:
             blocked = self._lockpoll_blocked(a)
@@ -352,6 +369,8 @@ class Env:
 
     def _lockpoll_blocked(self, a: Actor) -> Callable[[], bool]:
         def blocked() -> bool:
+            if self.s3_lock_view is not None:
+                return self.s3_lock_view(a.name)
             return any(h != a.name for h in self.flocks.values())
         return blocked
 
@@ -514,6 +533,8 @@ def _emit_storage_event(env: Env, a: Actor, op: str, cls: str, path: str, args: 
     s: Any = env.sched if env.sched.me() is not None else _EmitAs(env.sched, a.name)
     ok = err is None
     errname = type(err).__name__ if err is not None else None
+    if op == "read_file_with_etag":
+        rctx = None          # the CAS read of the pointer is its own step, never part of a resolution
     if rctx is not None and cls in ("hint", "meta", "dir", "other") or (rctx is not None and op in ("list_files", "get_modified_time")):
         # inside pointer resolution: (re)position the Resolve event at the linearisation point
         if (cls == "hint" and op in ("read_file", "read_file_with_etag")) or (cls == "hint" and op == "exists" and res is False) \
@@ -589,6 +610,15 @@ def _emit_storage_event(env: Env, a: Actor, op: str, cls: str, path: str, args: 
             s.emit({"k": "ReadMarker", "f": env.marker_fid(path), "ok": ok, "err": errname})
         return
     if op == "read_file_with_etag" and cls == "hint":
+        if ok:
+            text = res[0].decode("utf-8", "replace").strip() if res and res[0] is not None else ""
+            nm = env.ids.name(text) if META_RE.match(text.rsplit("/", 1)[-1]) else {"v": -1, "u": 0}
+            if not hasattr(env, "etag_names"):
+                env.etag_names = {}
+            env.etag_names[res[1]] = nm
+            s.emit({"k": "ReadHintEtag", "name": nm, "ok": True})
+        else:
+            s.emit({"k": "ReadHintEtag", "name": {"v": -1, "u": 0}, "ok": False, "err": errname})
         return
     if op == "list_files":
         esc = any(p.startswith("..") for p in (res or [])) if ok else False
@@ -615,7 +645,31 @@ def _marker_fid(env: Env, path: str) -> int:
 
 
 Env.marker_fid = lambda self, path: _marker_fid(self, path)  # type: ignore[attr-defined]
-Env.etag_name = lambda self, etag: self.etag_names.get(etag, {"v": -1, "u": 0}) if hasattr(self, "etag_names") else {"v": -1, "u": 0}  # type: ignore[attr-defined]
+Env.etag_name = lambda self, etag: self.etag_names.get(etag, {"v": -1, "u": 0})  # type: ignore[attr-defined]
+
+
+class GrantAllLock:
+    """A lock provider that gives no exclusion at all (C08: 'even if the lock gives no exclusion')."""
+
+    def __init__(self, env: "Env") -> None:
+        self.env = env
+
+    def acquire(self) -> bool:
+        if self.env.sched.me() is not None:
+            self.env.sched.gate("lock_try", path="grant-all")
+            self.env.sched.emit({"k": "LockTry", "ok": True})
+        return True
+
+    def release(self) -> None:
+        if self.env.sched.me() is not None:
+            self.env.sched.gate("unlock", path="grant-all")
+            self.env.sched.emit({"k": "DUnlock"})
+
+    def is_held(self) -> bool:
+        if self.env.sched.me() is not None:
+            _async_here(self.env, self.env.sched.gate("fence"), "fence")
+            self.env.sched.emit({"k": "Fence", "ok": True})
+        return True
 
 
 def install(env: Env) -> None:
@@ -812,6 +866,64 @@ def install(env: Env) -> None:
     _patch(fl.FileLock, "_try_acquire_once", try_once)
     _patch(fl.FileLock, "release", release)
 
+    # S3 lock provider: acquisition attempts, release and the fence are spec-level steps; the individual
+    # S3 requests on the lock object are scheduling points (FakeS3.gate) but belong to S3Lock.tla, not here
+    orig_s3_rel = lp.S3LockProviderBase.release
+    orig_s3_held = lp.S3LockProviderBase.is_held
+
+    def s3_try(self: Any, _orig: Any = None) -> bool:
+        orig_s3_try = _orig
+        a = env.sched.me()
+        if a is None:
+            return orig_s3_try(self)
+        me = a.name
+
+        def blocked() -> bool:
+            if env.allow_spin:
+                return False
+            o = getattr(self.s3, "objects", {}).get(self.key)
+            if o is None or o.body.decode("utf-8", "replace") == self.lock_id:
+                return False
+            return env.clock.peek_ms() / 1000.0 - o.mtime <= self.lease_seconds      # held and not lapsed
+
+        env.sched.gate("lock_try", path=self.key, blocked=blocked)
+        ok = orig_s3_try(self)
+        if ok:
+            env.flocks[self.key] = me
+        env.sched.emit({"k": "LockTry", "ok": bool(ok)})
+        return ok
+
+    def s3_release(self: Any) -> None:
+        a = env.sched.me()
+        if a is None:
+            return orig_s3_rel(self)
+        # (a holder that already learnt it lost the lock releases nothing, but the step is still taken)
+        env.sched.gate("unlock", path=self.key)
+        n0 = len(env.lock_deletes)
+        orig_s3_rel(self)
+        mine = [b for who, b in env.lock_deletes[n0:] if who == a.name]
+        wiped = any(b is not None and b != self.lock_id for b in mine)      # this release deleted somebody else's lock object
+        if env.flocks.get(self.key) == a.name or wiped:
+            env.flocks.pop(self.key, None)
+        env.sched.emit({"k": "DUnlock", "wiped": bool(wiped)})
+
+    def s3_is_held(self: Any) -> bool:
+        if env.sched.me() is not None:
+            _async_here(env, env.sched.gate("fence"), "fence")
+        r = orig_s3_held(self)
+        if env.sched.me() is not None:
+            env.sched.emit({"k": "Fence", "ok": bool(r)})
+        return r
+
+    for klass in (lp.S3LockProvider, lp.S3PollingLockProvider):
+        o = klass.__dict__["_try_acquire"]
+        _patch(klass, "_try_acquire", (lambda o_: (lambda self: s3_try(self, o_)))(o))
+    _patch(lp.S3LockProviderBase, "release", s3_release)
+    _patch(lp.S3LockProviderBase, "is_held", s3_is_held)
+    # the heartbeat thread is replaced by an environment step of the scheduler (Heartbeat = _renew_once)
+    _patch(lp.S3LockProviderBase, "_start_heartbeat", lambda self: env.heartbeats.append(self) if self not in env.heartbeats else None)
+    _patch(lp.S3LockProviderBase, "_stop_heartbeat_thread", lambda self: env.heartbeats.remove(self) if self in env.heartbeats else None)
+
     # fence (local): is_held() is a flag read; logged so the trace shows the fence was evaluated
     orig_isheld = lp.LocalLockProvider.is_held
 
@@ -834,3 +946,5 @@ def install(env: Env) -> None:
     fdt = make_fake_datetime(env)
     for mod in (mm, sm, fm):
         _patch(mod, "datetime", fdt)
+    if env.backend != "local":
+        _patch(_real_datetime, "datetime", fdt)      # lock_provider does `from datetime import datetime` inside its functions
